@@ -15,9 +15,15 @@ for d in sorted(glob.glob(os.path.join(VERIF, "seeded", "M*"))):
     for ts, c, rc, n in runs:
         last[c] = (rc, n, ts)
     first_miss = sorted(set(c for ts, c, rc, n in runs if rc == 0))
+    earlier = [c for c in first_miss if c in last and last[c][0] == 1]
     det = ["%s (%d)" % (c, n) for c, (rc, n, _) in sorted(last.items()) if rc == 1]
     miss = [c for c, (rc, n, _) in sorted(last.items()) if rc == 0]
     earlier = [c for c in first_miss if c in last and last[c][0] == 1]
+    # keep meta.json in step with runs.log
+    m["detected_by"] = ["%s quick, seed 1: %d violation(s) (%s)" % (c, n, ts) for c, (rc, n, ts) in sorted(last.items()) if rc == 1]
+    m["not_detected_by"] = ["%s quick, seed 1 (%s)" % (c, ts) for c, (rc, n, ts) in sorted(last.items()) if rc == 0]
+    m["detected_only_after_strengthening"] = earlier
+    json.dump(m, open(os.path.join(d, "meta.json"), "w"), indent=1)
     rows.append((m["id"], m["breaks_property"], m["what"].split(":")[0][:60], ", ".join(det) or "-", ", ".join(miss) or "-",
                  ", ".join(earlier) or "-"))
 out = ["| change | breaks | where | detected by (violations, latest quick run, seed 1) | not detected by | detected only after strengthening |",
